@@ -6,7 +6,7 @@ import (
 	"bytes"
 	"fmt"
 	"math"
-	"strings"
+	"net/netip"
 
 	zed "github.com/brimdata/super"
 	"github.com/brimdata/super/zcode"
@@ -69,6 +69,8 @@ func Core(zctx *zed.Context) []Value {
 		Value{"builder:NaN-payload", zed.NewFloat64(math.Float64frombits(0x7ff8000000000001))},
 		Value{"builder:float32-NaN", zed.NewFloat32(float32(math.NaN()))},
 		Value{"builder:enum-quoted-symbol", zed.NewValue(zctx.LookupTypeEnum([]string{"x y", "z"}), zed.EncodeUint(0))},
+		Value{"builder:ip4-mapped-ip6", zed.NewValue(zed.TypeIP, zed.EncodeIP(netip.MustParseAddr("::ffff:1.2.3.4")))},
+		Value{"builder:net-mapped", zed.NewValue(zed.TypeNet, zed.EncodeNet(netip.MustParsePrefix("::ffff:10.0.0.0/104")))},
 		Value{"builder:missing", zctx.Missing()},
 		Value{"builder:quiet", zctx.Quiet()},
 	)
@@ -89,33 +91,47 @@ func Small(zctx *zed.Context) []Value {
 	return out
 }
 
-// Wrap builds depth+1 compositions of v: in a record, array, set, map (as key
-// and as value), union, named type, error.
+// Wrap builds depth+1 compositions of v programmatically (no parser involved):
+// in records, arrays, a set, maps (as key and as value), an error, a named
+// record, and an array whose element type is a union.
 func Wrap(zctx *zed.Context, v Value) []Value {
-	s := v.Name
-	if strings.HasPrefix(s, "builder:") {
-		return nil
-	}
-	cands := []string{
-		fmt.Sprintf(`{f:%s}`, s),
-		fmt.Sprintf(`{f:%s,g:1}`, s),
-		fmt.Sprintf(`[%s]`, s),
-		fmt.Sprintf(`[%s,%s]`, s, s),
-		fmt.Sprintf(`[%s,"other"]`, s),
-		fmt.Sprintf(`|[%s]|`, s),
-		fmt.Sprintf(`|{%s:1}|`, s),
-		fmt.Sprintf(`|{"k":%s}|`, s),
-		fmt.Sprintf(`error(%s)`, s),
-		fmt.Sprintf(`{f:%s}(=wrapped)`, s),
-		fmt.Sprintf(`[{f:%s},{f:null}]`, s),
-	}
+	typ, body := v.Val.Type(), v.Val.Bytes()
+	one := zed.NewInt64(1)
+	str := zed.NewString("other")
 	var out []Value
-	for _, c := range cands {
-		val, err := zson.ParseValue(zctx, c)
-		if err != nil {
-			continue // not every composition is well-formed (e.g. decorated literals as map keys)
+	add := func(name string, t zed.Type, elems ...zcode.Bytes) {
+		var b zcode.Builder
+		for _, e := range elems {
+			b.Append(e)
 		}
-		out = append(out, Value{c, val.Copy()})
+		out = append(out, Value{name, zed.NewValue(t, b.Bytes()).Copy()})
+	}
+	n := v.Name
+	rec1 := zctx.MustLookupTypeRecord([]zed.Field{{Name: "f", Type: typ}})
+	rec2 := zctx.MustLookupTypeRecord([]zed.Field{{Name: "f", Type: typ}, {Name: "g", Type: zed.TypeInt64}})
+	add("{f:"+n+"}", rec1, body)
+	add("{f:"+n+",g:1}", rec2, body, one.Bytes())
+	add("["+n+"]", zctx.LookupTypeArray(typ), body)
+	add("["+n+","+n+"]", zctx.LookupTypeArray(typ), body, body)
+	add("|["+n+"]|", zctx.LookupTypeSet(typ), body)
+	add("|{"+n+":1}|", zctx.LookupTypeMap(typ, zed.TypeInt64), body, one.Bytes())
+	add("|{\"k\":"+n+"}|", zctx.LookupTypeMap(zed.TypeString, typ), zed.NewString("k").Bytes(), body)
+	out = append(out, Value{"error(" + n + ")", zed.NewValue(zctx.LookupTypeError(typ), body).Copy()})
+	if named, err := zctx.LookupTypeNamed("wrapped", rec1); err == nil {
+		add("{f:"+n+"}(=wrapped)", named, body)
+	}
+	// array of records, second element with a null field
+	add("[{f:"+n+"},{f:null}]", zctx.LookupTypeArray(rec1), func() zcode.Bytes { var b zcode.Builder; b.Append(body); return b.Bytes() }(), func() zcode.Bytes { var b zcode.Builder; b.Append(nil); return b.Bytes() }())
+	// array whose elements are a union of v's type and string
+	if zed.TypeUnder(typ) != zed.TypeString && typ.Kind() != zed.UnionKind && typ != zed.TypeNull {
+		u := zctx.LookupTypeUnion([]zed.Type{typ, zed.TypeString})
+		tag := func(t zed.Type, b zcode.Bytes) zcode.Bytes {
+			var bb zcode.Builder
+			bb.Append(zed.EncodeInt(int64(u.TagOf(t))))
+			bb.Append(b)
+			return bb.Bytes()
+		}
+		add("["+n+",\"other\"]", zctx.LookupTypeArray(u), tag(typ, body), tag(zed.TypeString, str.Bytes()))
 	}
 	return out
 }
